@@ -1,11 +1,12 @@
-import Rtsp.Proofs.Codec.Av1Enc
-import Rtsp.Proofs.Codec.Av1Dec
+import Rtsp.Proofs.Codec.Av1Resync
 /-
 Property theorems for pkg/format/rtpav1 (encoder.go, decoder.go, as repaired by the two `fix:`
 commits) with mediacommon's LEB128, about the model in `Model/Codec/Av1.lean`.
 
   C06  c06_payload_le, c06_seq_consecutive, c06_seq_many, c06_pt_ssrc, c06_marker_only_last
   C08  c08_inv_init, c08_inv_decode, c08_retained_le, c08_out_le, c08_parse_total (no fuel exhaustion)
+  C03  c03_roundtrip, c03_roundtrip_many
+  C07  c07_flush (from ANY state, no invariant needed), c07_resync
 
 All statements quantify over every temporal unit (any number of OBUs of any size, empty ones
 included, where validity is not assumed), payload limit, sequence number, packet and history.
@@ -126,11 +127,6 @@ theorem c06_marker_only_last (e : Enc) (obus : List Bytes) (hc : ValidCfg e.cfg)
 
 /-! ## C08 -/
 
-def Clean (d : Dec) : Prop :=
-  d.fragments = [] ∧ d.fragmentsSize = 0 ∧ d.frameBuffer = [] ∧ d.frameBufferLen = 0 ∧ d.frameBufferSize = 0
-
-instance (d : Dec) : Decidable (Clean d) := by unfold Clean; infer_instance
-
 theorem c08_inv_init (P : Nat) : Inv P {} := ⟨rfl, by simp, rfl, rfl, by simp, by simp⟩
 
 /-- **C08**: the invariant is preserved by `Decode` on EVERY packet (any payload bytes, sequence
@@ -161,5 +157,84 @@ theorem c08_parse_total (w extra : Nat) (payload : Bytes) (acc : List Bytes) :
   induction extra with
   | zero => rfl
   | succ k ih => rw [← ih, ← Nat.add_assoc]; exact parseObus_fuel w _ payload acc (by omega)
+
+/-! ## C03 -/
+
+/-- **C03 round trip**: for every valid configuration (limit ≥ 3), every valid temporal unit (1..10
+non-empty OBUs, ≤ 3 MiB: every mix of aggregated, fragmented, length-prefixed and W-counted
+elements) and every clean decoder, the decoder answers "more packets needed" on all packets but the
+last, returns exactly the OBUs — same units, same bytes, same grouping — at the last one, and is
+clean again afterwards.  (False for the encoder before the repair: `[1447 B, 100 B]` at limit 1450.) -/
+theorem c03_roundtrip (e : Enc) (obus : List Bytes) (d : Dec) (hc : ValidCfg e.cfg) (hf : ValidFrame obus)
+    (hd : Clean d) :
+    ∃ d', runDec d (encode e obus).2
+        = (d', List.replicate ((encode e obus).2.length - 1) .more ++ [.ok obus]) ∧ Clean d' :=
+  roundtrip e obus d hc hf hd
+
+/-- **C03, consecutive temporal units** through the same encoder / decoder pair (two units; induction
+gives any number). -/
+theorem c03_roundtrip_many (e : Enc) (f g : List Bytes) (d : Dec) (hc : ValidCfg e.cfg)
+    (hf : ValidFrame f) (hg : ValidFrame g) (hd : Clean d) :
+    let e1 := (encode e f).1
+    ∃ d', runDec d ((encode e f).2 ++ (encode e1 g).2)
+        = (d', (List.replicate ((encode e f).2.length - 1) .more ++ [.ok f]) ++
+               (List.replicate ((encode e1 g).2.length - 1) .more ++ [.ok g])) ∧ Clean d' := by
+  intro e1
+  obtain ⟨d1, hr1, hc1⟩ := roundtrip e f d hc hf hd
+  have hcfg : ValidCfg e1.cfg := by rw [(c06_seq_consecutive e f hc).2.2]; exact hc
+  obtain ⟨d2, hr2, hc2⟩ := roundtrip e1 g d1 hcfg hg hc1
+  refine ⟨d2, ?_, hc2⟩
+  rw [runDec_append, hr1]
+  simp only [hr2]
+
+/-! ## C07 -/
+
+/-- **C07 flush**: from ANY decoder state — stale fragments of a lost OBU, a frame buffer left
+behind by a lost marker packet, any expected sequence number; no invariant is needed — the packets
+of one intact valid temporal unit, in order, leave the decoder clean (whatever it returned
+meanwhile).  (False for the decoder before the repair: stale fragments survived a Z = 0 packet.) -/
+theorem c07_flush (e : Enc) (obus : List Bytes) (D : Dec) (hc : ValidCfg e.cfg) (hf : ValidFrame obus) :
+    Clean (runDec D (encode e obus).2).1 := flush e obus D hc hf
+
+/-- **C07 resynchronisation**: after ANY packet history `h` (arbitrary packets: every loss /
+duplication / reordering pattern applied to any stream is such a history), an intact temporal unit
+`f` followed by an intact temporal unit `g` ends with exactly `g`, returned at `g`'s last packet and
+not before. -/
+theorem c07_resync (h : List Pkt) (e : Enc) (f g : List Bytes) (hc : ValidCfg e.cfg)
+    (hf : ValidFrame f) (hg : ValidFrame g) :
+    let d0 := (runDec {} h).1
+    let e1 := (encode e f).1
+    ∃ d', runDec (runDec d0 (encode e f).2).1 (encode e1 g).2
+        = (d', List.replicate ((encode e1 g).2.length - 1) .more ++ [.ok g]) ∧ Clean d' := by
+  intro d0 e1
+  have hclean := flush e f d0 hc hf
+  have hcfg : ValidCfg e1.cfg := by rw [(c06_seq_consecutive e f hc).2.2]; exact hc
+  exact roundtrip e1 g _ hcfg hg hclean
+
+/-! ## non-vacuity -/
+
+/-- limit 8, sequence numbers wrapping: a 5-byte OBU (length-prefixed, aggregated), a 9-byte OBU
+(does not fit the one byte left: packet closed without Y — the repaired path —, then fragmented
+with length prefix and continued with Z), a 1-byte last OBU (W-counted, no length) -/
+def exEnc : Enc := { cfg := { pt := 96, ssrc := 7, max := 8 }, seq := 65535 }
+def exTU : List Bytes := [[0x0a, 1, 2, 3, 4], [10, 11, 12, 13, 14, 15, 16, 17, 18], [0x32]]
+
+example : ValidCfg exEnc.cfg ∧ ValidFrame exTU ∧ Clean {} := by decide
+example : (encode exEnc exTU).2.map (·.payload) =
+    [[0x08, 5, 0x0a, 1, 2, 3, 4], [0x40, 6, 10, 11, 12, 13, 14, 15], [0xa0, 3, 16, 17, 18, 0x32]] := by decide
+example : (encode exEnc exTU).2.map (·.seq) = [65535, 0, 1] := by decide
+example : (runDec {} (encode exEnc exTU).2).2 = [.more, .more, .ok exTU] := by decide
+/-- the shape on which the unrepaired encoder failed: nothing of the second OBU fits the first packet -/
+example : (runDec {} (encode { exEnc with cfg := { exEnc.cfg with max := 20 } } [List.replicate 17 1, [2, 3, 4, 5]]).2).2
+    = [.more, .ok [List.replicate 17 1, [2, 3, 4, 5]]] := by decide
+/-- a dirty state: stale fragments, stale frame buffer, wrong expected sequence number — the unit
+still leaves the decoder clean, and the next unit comes back exactly -/
+def exDirty : Dec := { fragments := [[1, 2], [3]], fragmentsSize := 3, nextSeq := 77, frameBuffer := [[9]],
+                       frameBufferLen := 1, frameBufferSize := 1 }
+example : Clean (runDec exDirty (encode exEnc exTU).2).1 := by decide
+example : (runDec (runDec exDirty (encode exEnc exTU).2).1 (encode (encode exEnc exTU).1 exTU).2).2
+    = [.more, .more, .ok exTU] := by decide
+example : Inv 1500 { fragments := [[1, 2], [3]], fragmentsSize := 3, nextSeq := 77, frameBuffer := [[9]],
+                     frameBufferLen := 1, frameBufferSize := 1 } := ⟨by decide, by decide, by decide, by decide, by decide, by decide⟩
 
 end Rtsp.Codec.Av1
